@@ -1014,3 +1014,10 @@ def f3_dev(s, tier):
     if tier == "quick":
         return 2 if n <= 5 else 1
     return 3 if n <= 6 else 2
+
+
+HUGE_PATTERNS = ("split-nested", "fanin-in-split", "splits-nested", "fj-two-level")
+
+
+def is_huge(s):
+    return any(p in s.name for p in HUGE_PATTERNS)
